@@ -216,8 +216,8 @@ def base_runs(h, tier):
     if n:
         # version-table contents the migrator itself never writes: exercise the i32 decoding of lib.rs:293/305
         runs.append(seq_run("x_neg", 0, {"k": 0, "vt": "current", "rows": [[-1, "neg"]]}, faults=((),), family="c09", kind="exotic"))
-        runs.append(seq_run("x_big", 0, {"k": 0, "vt": "current", "rows": [[2147483648, "big"]]}, faults=((),), family="c09", kind="exotic"))
-        runs.append(seq_run("x_big_id", 0, {"k": 0, "vt": "current", "rows": [[vs[0], "other-id"], [2147483648, "big"]]}, faults=((),),
+        runs.append(seq_run("x_big", 0, {"k": 0, "vt": "current", "rows": [[9999999999, "big"]]}, faults=((),), family="c09", kind="exotic"))
+        runs.append(seq_run("x_big_id", 0, {"k": 0, "vt": "current", "rows": [[vs[0], "other-id"], [9999999999, "big"]]}, faults=((),),
                             family="c09", kind="exotic"))
     return runs
 
@@ -395,7 +395,7 @@ def write_shard(path, out, cases):
             "Definition refc : list (list string * string) := %s." % refc,
             "Definition cases : list mig_case := [", ";\n".join(cases), "].",
             "Definition bad := mismatches cases.", "Eval vm_compute in bad.",
-            "Eval vm_compute in map (fun c => (ascending (k_ms c), id_conflict (k_ms c) (k_init c), rows_i32 (k_init c))) cases."]
+            "Eval vm_compute in map flag_code cases."]
     open(path, "w").write("\n".join(body) + "\n")
 
 
@@ -411,11 +411,11 @@ def applied_of(out, run):
     return None
 
 
-def run_history(hdir, tier, seed, work):
+def run_history(hdir, tier, seed, work, built):
     """-> dict(name, cases [..], build info) ; one Coq shard per history"""
     h = read_history(hdir)
     res = {"name": h["name"], "n_migs": len(h["versions"]), "versions": h["versions"], "runs": [], "crashes": [], "error": None}
-    binp, log, dt, cached, key = build_case(hdir)
+    binp, log, dt, cached, key = built
     res.update({"build_s": round(dt, 1), "build_cached": cached, "key": key})
     if binp is None:
         res["error"] = {"stage": "compile", "log": log}
@@ -424,7 +424,8 @@ def run_history(hdir, tier, seed, work):
     wd = os.path.join(work, h["name"])
     shutil.rmtree(wd, ignore_errors=True)
     os.makedirs(wd)
-    out1, rc, err = run_bin(binp, {"work": wd, "runs": base_runs(h, tier)}, h["name"] + ".1")
+    # the compiled-in history is a copy of hdir (the cache key is its content hash): re-derive from hdir
+    out1, rc, err = run_bin(binp, {"work": wd, "project": hdir, "runs": base_runs(h, tier)}, h["name"] + ".1")
     if out1 is None:
         res["error"] = {"stage": "run-base", "rc": rc, "log": err}
         return res
@@ -437,7 +438,7 @@ def run_history(hdir, tier, seed, work):
         if key_nc:
             ncalls[key_nc] = len(r["instances"][0]["log"])
     runs2 = fault_runs(h, tier, rng, ncalls) + conc_runs(h, tier, rng, ncalls)
-    out2, rc, err = run_bin(binp, {"work": wd, "no_refcats": True, "runs": runs2}, h["name"] + ".2")
+    out2, rc, err = run_bin(binp, {"work": wd, "project": hdir, "no_refcats": True, "runs": runs2}, h["name"] + ".2")
     if out2 is None:
         res["error"] = {"stage": "run-faults", "rc": rc, "log": err}
         return res
@@ -451,10 +452,10 @@ def run_history(hdir, tier, seed, work):
     for (k, j) in crash_points(h, tier, rng, ncalls):
         db = os.path.join(wd, "crash_k%d_j%d.db" % (k, j))
         init = {"k": k, "vt": "absent" if k == 0 else "current"}
-        o0, _, e0 = run_bin(binp, {"work": wd, "no_refcats": True, "runs": [{"name": "prep", "variant": 0, "init": init, "db": db, "instances": [], "keep_db": True}]}, h["name"] + ".c0")
-        oa, rca, _ = run_bin(binp, {"work": wd, "no_refcats": True, "runs": [{"name": "die", "variant": 0, "db": db, "reuse": True, "keep_db": True,
+        o0, _, e0 = run_bin(binp, {"work": wd, "project": hdir, "no_refcats": True, "runs": [{"name": "prep", "variant": 0, "init": init, "db": db, "instances": [], "keep_db": True}]}, h["name"] + ".c0")
+        oa, rca, _ = run_bin(binp, {"work": wd, "project": hdir, "no_refcats": True, "runs": [{"name": "die", "variant": 0, "db": db, "reuse": True, "keep_db": True,
                                                                                "instances": [{"abort_at": j}], "mode": "sequential"}]}, h["name"] + ".c1")
-        o2, _, e2 = run_bin(binp, {"work": wd, "no_refcats": True, "runs": [
+        o2, _, e2 = run_bin(binp, {"work": wd, "project": hdir, "no_refcats": True, "runs": [
             {"name": "look", "variant": 0, "db": db, "reuse": True, "keep_db": True, "instances": []},
             {"name": "rerun", "variant": 0, "db": db, "reuse": True, "instances": [{}], "mode": "sequential"}]}, h["name"] + ".c2")
         if o0 is None or o2 is None:
@@ -505,12 +506,12 @@ def run_mig(tier, seed):
         shutil.rmtree(old, ignore_errors=True)
     os.makedirs(d)
     work = os.path.join(d, "work")
-    hist = []
-    used = set()
-    for hd in history_dirs(tier, seed):
-        hr = run_history(hd, tier, seed, work)
-        used.add(hr.get("key"))
-        hist.append(hr)
+    hdirs = history_dirs(tier, seed)
+    built = [build_case(hd) for hd in hdirs]          # sequential: one shared build directory
+    used = {b[4] for b in built}
+    from concurrent.futures import ThreadPoolExecutor
+    with ThreadPoolExecutor(max_workers=8) as ex:
+        hist = list(ex.map(lambda a: run_history(a[0], tier, seed, work, a[1]), zip(hdirs, built)))
     for b in glob.glob(os.path.join(MIG, "bin", "*")):
         if os.path.basename(b) not in used:
             shutil.rmtree(b, ignore_errors=True)
@@ -536,13 +537,14 @@ def run_mig(tier, seed):
         for (li, subs) in vflib.parse_nat_pairs(blocks[0] if blocks else ""):
             mism["%d:%d" % (si, li)] = subs
         if len(blocks) > 1:
-            trip = re.findall(r"\((true|false),\s*(true|false),\s*(true|false)\)", blocks[1])
-            flags[si] = [[x == "true" for x in t] for t in trip]
+            flags[si] = vflib.parse_nat_list(blocks[1])
     for ds in descr:
         ds["mismatch"] = mism.get("%d:%d" % (ds["shard"], ds["local"]), [])
         fl = flags.get(ds["shard"], [])
-        ds["hyp"] = dict(zip(("ascending", "id_conflict", "rows_i32"), fl[ds["local"]])) if ds["local"] < len(fl) else {}
-    res = {"dir": d, "histories": [{k: v for k, v in hr.items() if k != "out"} for hr in hist], "cases": descr, "shard_errors": errors,
+        code = fl[ds["local"]] if ds["local"] < len(fl) else None
+        ds["hyp"] = None if code is None else {"ascending": bool(code & 1), "versions_i32": bool(code & 2), "rows_i32": bool(code & 4),
+                                               "at_version": bool(code & 8), "id_conflict": bool(code & 16)}
+    res = {"dir": d, "histories": hist, "cases": descr, "shard_errors": errors,
            "wall_s": round(time.time() - t0, 1), "cached": False}
     json.dump(res, open(done, "w"))
     return res
